@@ -333,7 +333,7 @@ fn classify(_log: &[String], frame: &[String], _got: &[String], _want: &[String]
 }
 
 // ------------------------------------------------------------------ concurrent suspend story (oracle-only)
-/// Why the sequential model may read `suspend` as ONE step (Coq: C01_calls_are_one_bar_section,
+/// Why the sequential model may read `suspend` as ONE step (Coq: C01_calls_have_at_most_one_bar_section,
 /// C01_suspend_closure_inside_bar_section): a second thread holding a clone calls set_message / inc
 /// WHILE the closure runs.  The closure tells it to go, waits up to 50 ms for its completion, then
 /// prints its line.  On a tree that keeps the bar locked around the closure the other thread blocks
